@@ -21,8 +21,8 @@ disagreement. Fixed on the way: `ec56936`, `e188dc8` (C02), `11a0cd5`, `6150301`
 ASBUILT["C04"] = """**As built.** `spec/Mount.tla` (+ `MC_Mount*.cfg`; actions `AddRoute`, `Open(group|mount)`, `Close`, `Rebuild` -- a request served between two
 registrations, which forces the route tree to be rebuilt while mounts are pending), `harness/c04_test.go` building every program three ways
 (mounts before / after population, groups, flat). Quick 165 k states, 62 k programs, 33 s. Fixed: `c8ee2b3` (params / root / star flags of
-mounted routes). Open finding `C04-nested-root-mount` (a sub-app mounted at "/" inside a sub-app that is itself mounted at "/": start-up nil
-dereference) -- recorded, not repaired: the repair needs the mount bookkeeping (`appList` keyed by prefix) redesigned."""
+mounted routes) and `f811e1d` (a sub-app mounted at "/" inside a sub-app that is itself mounted at "/": start-up nil dereference -- first kept
+as the known finding `C04-nested-root-mount`, then repaired when a four-line fix turned up; the check now has no open finding)."""
 ASBUILT["C05"] = """**As built.** `spec/CtxLifecycle.tla` (+ `MC_CtxLifecycle.cfg`, `_mutant.cfg`: forgetting to reset one field must violate `NoForeignData`) and
 `harness/c05_test.go`: every history of <= 2 (thorough 3) preceding requests from 15 kinds x 5 probes is served **from wire bytes on one recycled
 `fasthttp.RequestCtx`** (flash-cookie parsing reads `RawHeaders`, which only a wire-parsed request has), GC off, pointer identity of the pooled
